@@ -60,8 +60,9 @@ def init (allocSize poolSize inc : Nat) : CM :=
   { p := p1, rb := r, rbSize := if r.isSome then poolSize / 2 else 0, rbOff := 0,
     rbBase := r.getD 0, wb := none, wbSize := 0, wbApp := 0, wbSend := 0, sending := false, inc := inc, poolSize := poolSize }
 
-/-- new size computed by `try_grow_read_buffer`, or `none` when it gives up before reallocating -/
-def growSize (c : CM) (required : Bool) : Option Nat :=
+/-- new size computed by `try_grow_read_buffer`, or `none` when it gives up before reallocating.
+    `minOne`: the guard `if (0 == small_inc) small_inc = 1` (fix F32) is present -/
+def growSizeG (minOne : Bool) (c : CM) (required : Bool) : Option Nat :=
   let avail := getFree c.p
   if avail = 0 then none
   else if c.rbSize = 0 then some (avail / 2)
@@ -72,9 +73,13 @@ def growSize (c : CM) (required : Bool) : Option Nat :=
       if c.inc ≤ g + leftFree ∧ leftFree < c.inc then some (c.rbSize + (c.inc - leftFree))
       else if !required then none
       else
-        let smallInc := (if Mhd.Gen.ConnMem.bufIncSize > c.inc then c.inc else Mhd.Gen.ConnMem.bufIncSize) / 8
+        let smallInc0 := (if Mhd.Gen.ConnMem.bufIncSize > c.inc then c.inc else Mhd.Gen.ConnMem.bufIncSize) / 8
+        let smallInc := if minOne ∧ smallInc0 = 0 then 1 else smallInc0
         if smallInc < avail then some (c.rbSize + smallInc) else some (c.rbSize + avail)
     else some (c.rbSize + g)
+
+/-- the code as it is: whether the guard is present is a regenerated behaviour probe -/
+def growSize (c : CM) (required : Bool) : Option Nat := growSizeG Mhd.Gen.ConnMem.growMinOne c required
 
 /-- `try_grow_read_buffer` -/
 def grow (c : CM) (required : Bool) : CM × Bool :=
